@@ -56,36 +56,36 @@ Qed.
 Print Assumptions C04_handoff_never_stuck_no_error.
 
 (* ---- bytes: the full statement "exactly the output of running the child directly" ---- *)
-Definition cache_tool (ans : line -> line) (keyf : line -> nat) (cr : bool) (bs : list Z) : list (option line) :=
-  cache_run ans (map (fun l => (keyf l, l)) (records 10 cr bs)).
+(* in_cr / out_cr: does the reader strip a carriage return in front of the newline (input lines /
+   the child's answers); regenerated from the source: Gen.Src_wrappers.cache_in_strip_cr, cache_out_strip_cr *)
+Definition post_cr (cr : bool) (l : line) : line := if cr then strip_cr l else l.
+Definition cache_tool (ans : line -> line) (keyf : line -> nat) (in_cr out_cr : bool) (bs : list Z) : list (option line) :=
+  cache_run (fun l => post_cr out_cr (ans l)) (map (fun l => (keyf l, l)) (records 10 in_cr bs)).
 Definition child_directly (ans : line -> line) (bs : list Z) : list (option line) :=
   map (fun l => Some (ans l)) (records 10 false bs).
-Definition C04_transparent_bytes_statement : Prop :=
-  forall ans keyf bs, (forall l1 l2, keyf l1 = keyf l2 <-> l1 = l2) ->
-    cache_tool ans keyf true bs = child_directly ans bs.
 
-(* refuted on the current code: both readers strip a carriage return before the newline
-   (FilePiece line iterator / ReadLine default strip_cr = true): "a\r\n" through `cache cat` gives "a\n" *)
-Theorem C04_transparent_bytes_refuted :
-  exists ans bs, forall keyf, cache_tool ans keyf true bs <> child_directly ans bs.
-Proof.
-  exists (fun l => l), [97; 13; 10]%Z. intros keyf. vm_compute. discriminate.
-Qed.
-Print Assumptions C04_transparent_bytes_refuted.
-
-(* what holds: whenever the input has no CR immediately before a newline (the two readers agree) *)
-Theorem C04_transparent_bytes_partial :
+(* for all byte inputs, all children (line functions) and collision-free whole-line keys:
+   cache's output lines are exactly the child's own output lines *)
+Theorem C04_transparent_bytes :
   forall ans keyf bs, (forall l1 l2, keyf l1 = keyf l2 <-> l1 = l2) ->
-    records 10 true bs = records 10 false bs ->
-    cache_tool ans keyf true bs = child_directly ans bs.
+    cache_tool ans keyf cache_in_strip_cr cache_out_strip_cr bs = child_directly ans bs.
 Proof.
-  intros ans keyf bs Hk Hr. unfold cache_tool, child_directly. rewrite Hr.
+  intros ans keyf bs Hk. unfold cache_tool, child_directly, cache_in_strip_cr, cache_out_strip_cr, post_cr.
   rewrite cache_transparent.
   - rewrite map_map. reflexivity.
   - intros k1 l1 k2 l2 H1 H2. apply in_map_iff in H1. apply in_map_iff in H2.
     destruct H1 as (x1 & E1 & _). destruct H2 as (x2 & E2 & _). inversion E1; inversion E2; subst. apply Hk.
 Qed.
-Print Assumptions C04_transparent_bytes_partial.
+Print Assumptions C04_transparent_bytes.
+
+(* the defect that was in cache (finding F11, fixed): with the default readers (strip_cr = true on both
+   sides) "a\r\n" through `cache cat` gave "a\n" *)
+Theorem C04_strip_cr_refuted :
+  exists ans bs, forall keyf, cache_tool ans keyf true true bs <> child_directly ans bs.
+Proof.
+  exists (fun l => l), [97; 13; 10]%Z. intros keyf. vm_compute. discriminate.
+Qed.
+Print Assumptions C04_strip_cr_refuted.
 
 (* non-vacuity: a duplicate pattern with three keys; the child sees b, a, c once each *)
 Example C04_nonvacuous :
